@@ -783,8 +783,14 @@ class GoExec:
         if st.guards:
             raise Unsupported('heap write under short-circuit guard')
         ss = self.lay.sorts(ftid)
+        if isinstance(v, IfaceV) and self.tt.kind(ftid) in ('slice', 'map', 'ptr', 'func', 'chan') \
+           and z3.is_int_value(z3.simplify(v.ref)) and z3.simplify(v.ref).as_long() == 0:
+            v = self.lay.zero(ftid)            # the untyped nil assigned to a field of slice / map / pointer type
         for i, (s, t) in enumerate(zip(ss, self.lay.flatten(v, ftid))):
-            st.heap[(tname, fname, i)] = z3.Store(self.heap_arr(st, (tname, fname, i), s), p.ref, t)
+            ha = self.heap_arr(st, (tname, fname, i), s)
+            if isinstance(t, z3.ExprRef) and ha.sort().range() != t.sort():
+                raise Unsupported('store of a %s into field %s.%s slot %d of sort %s' % (t.sort(), tname, fname, i, ha.sort().range()))
+            st.heap[(tname, fname, i)] = z3.Store(ha, p.ref, t)
 
     def load_ptr(self, st, p):
         tid = p.etid
